@@ -97,7 +97,8 @@ def c07_records(tier):
                                              "u%d | raw bits[%d,%d) | byte | u%d" % (w0, ra, rb, W[(k * 2 + 1) % 8]))))
     H = []
     for k, (fam, inst) in enumerate(insts):
-        H.append(Harness("c07_%s_%d" % (fam, k), fam, [inst], unwind=140))
+        # longest loop = bit loop over the longest concatenated tail (<= 3 x 128 bits)
+        H.append(Harness("c07_%s_%d" % (fam, k), fam, [inst], unwind=400))
     return H
 
 
